@@ -160,7 +160,7 @@ def run(ck, replay=None):
     # StreamUse.tla: how the interpreter uses its own pipes while these programs run (open/close counters, late writes, balance)
     sujobs = [{'id': j['id'], 'src': j['src']} for j in jobs]
     rng.shuffle(sujobs)
-    ok += SU.run_binding(ck, sujobs[:(400 if quick else 100000)], perturb=ck.seed * 1000 + 29, tag='su')
+    ok += SU.run_binding(ck, sujobs[:(400 if quick else 6000)], perturb=ck.seed * 1000 + 29, tag='su')
     # Lifecycle.tla bound to the real scheduler: gate logs of the chain programs (true/false commands) validated by TLC
     lcases = list(chains)
     if not quick:
